@@ -132,6 +132,12 @@ func try2Float64(v interface{}) interface{} {
 				return f
 			}
 		}
+		if n.IsInf(0) {
+			if n.Signbit() {
+				return math.Inf(-1)
+			}
+			return math.Inf(1)
+		}
 		r, _ := n.Float64()
 		return r
 	}
